@@ -7,9 +7,11 @@ import monitor_gen as mg
 
 MLS = ("monitor",)
 HARNESSES = ()
-THEOREMS = ["C18_sees_once", "C18_filter_semantics", "C18_sees_once_refuted", "C18_never_addressee", "C18_never_addressee_refuted",
-            "C18_send_closes", "C18_send_closes_refuted", "C18_owns_nothing", "C18_loses_rules", "C18_no_pending_replies",
-            "C18_switch_effect", "C18_transparent", "C18_erasable", "C18_once_total", "C18_once_total_refuted"]
+THEOREMS = ["C18_sees_once", "C18_resumed_no_copy", "C18_filter_semantics", "C18_sees_once_refuted", "C18_never_addressee",
+            "C18_never_addressee_refuted", "C18_nothing_routed_from_monitor", "C18_nothing_routed_from_monitor_refuted",
+            "C18_never_addressee_routed_refuted", "C18_send_closes", "C18_send_closes_refuted", "C18_owns_nothing", "C18_loses_rules",
+            "C18_no_pending_replies", "C18_switch_refused", "C18_switch_exact", "C18_switch_signals", "C18_switch_effect",
+            "C18_transparent", "C18_transparent_refuted", "C18_erasable", "C18_once_total", "C18_once_total_refuted"]
 
 KNOWN_CLASS = {"unseen-local": "F18b", "monitor-not-closed-local": "F18a", "switch-duplicate": "F18c", "rule-collected": "F18d", "held-call-noreply": "F18e", "held-from-monitor": "F18e"}
 
@@ -53,6 +55,11 @@ def classify(events, mtoks):
         if closed:
             cl.add("monitor-closed-for-sending")
         if f[0] == "B" and int(f[1]) not in mons and not closed:
+            ack = any(x.startswith("r/d/") and x.split("/")[6] == f[2] for x in per.get(int(f[1]), []))
+            if not ack:
+                err = [x.split("/")[7] for x in per.get(int(f[1]), []) if x.startswith("e/d/") and x.split("/")[6] == f[2]]
+                cl.add("switch-refused-" + {"1": "unprivileged", "7": "flags-or-signature", "8": "bad-rule"}.get(err[0] if err else "?", "other"))
+                continue
             mons.add(int(f[1]))
             cl.add("switch")
             if any("/1/8/" in x for x in per.get(int(f[1]), [])):
@@ -64,6 +71,12 @@ def classify(events, mtoks):
                 cl.add("switch-with-other-monitor")
             if f[3] != "-":
                 cl.add("selective-filter")
+        if f[0] == "S" and f[3] in ("n4", "n5") and t.count("+") == t.count(":C:") - 1 and ":D:" not in t and ":C:" in t:
+            cl.add("held-for-activation")
+        if f[0] == "R" and f[3] in ("4", "5") and any(x.startswith("c/u") or x.startswith("s/u") for k in per for x, kd in zip(per[k], kinds[k]) if kd == "D"):
+            cl.add("held-released")
+            if any(x.split("/")[1] in ("u%d" % m for m in mons) for k in per for x, kd in zip(per[k], kinds[k]) if kd == "D"):
+                cl.add("held-released-from-monitor")
         for k in per:
             for x, kd in zip(per[k], kinds[k]):
                 if kd == "C":
@@ -193,7 +206,9 @@ def run(ctx):
         "rule": "histories of 6-22 events after 2-4 connects over up to 7 raw clients: broadcast and unicast signals, method calls to unique / well-known / "
                 "ownerless names, to the driver and without destination, genuine and bogus replies and errors, interfaces refused by <deny send_interface> / "
                 "<deny receive_interface>, org.freedesktop.DBus.Peer, RequestName (queueing, DO_NOT_QUEUE) / ReleaseName, AddMatch, GetId, connects, "
-                "disconnects; 0-3 BecomeMonitor calls at random points (biased to connections that own or wait for names or are party to an open call) with an "
+                "disconnects; connections under an unprivileged uid; messages to names with a service file (held for activation, released by a later "
+                "RequestName, refused on hold or on release, sender gone or turned monitor meanwhile); BecomeMonitor refused for lack of privilege, a flag, a "
+                "wrong signature or an unparsable rule at any position; 0-3 BecomeMonitor calls at random points (biased to connections that own or wait for names or are party to an open call) with an "
                 "empty array or 1-3 selective rules over type / sender / destination / interface / member; monitors occasionally send; plus %d hand-written "
                 "boundary scenarios; every history is replayed twice (with the switch / with a disconnect in its place).  non-trivial = a switch happened and "
                 "some monitor received a copy; distinct = distinct event lists" % len(mg.scenarios()),
